@@ -1,24 +1,19 @@
 SPECIFICATION Spec
 CONSTANTS
-  Sessions <- S3
+  Sessions <- P3
   Graphs <- Iso3
-  Depths <- D14
-  Skips <- AllSkips3
+  Depths <- D12
+  Skips <- SmallSkips3
   Thoroughs <- BothModes
   KeepHist = FALSE
   Dev_M1_DepthOffByOne = FALSE
   Dev_M2_RecoverNeverSet = FALSE
   Dev_M3_VisitedWrongElement = FALSE
   Dev_M4_SkipAfterRequest = FALSE
-INVARIANT TypeOK
 INVARIANT G1_Result
 INVARIANT G2_Stacks
 INVARIANT G3_Skip
 INVARIANT G3_Literal
 INVARIANT G4_NoAbort
 INVARIANT G4_Bound_Inv
-INVARIANT Verdict_Ok
-INVARIANT D_Tracks
-PROPERTY D_CfgConst
-PROPERTY G4_Terminates
 CHECK_DEADLOCK FALSE
